@@ -67,7 +67,9 @@ var plugins = []pluginDef{
 	2: {"cardinality", []string{
 		`{"key":["service"],"fields":["level"],"limit":2,"action":"discard"}`,
 		`{"key":["a.b","service"],"fields":["message","level"],"limit":1,"action":"remove_fields","metric_prefix":"x"}`,
-		`{"key":["service"],"fields":["message"],"ttl":"1s"}`}, ""},
+		`{"key":["service"],"fields":["message"],"ttl":"1s"}`,
+		// two key selectors that map to the same metric label name (a.b and a_b -> "a_b")
+		`{"key":["a.b","a_b"],"fields":["level"],"limit":5}`}, ""},
 	3: {"convert_date", []string{`{}`,
 		`{"field":"time","source_formats":["rfc3339nano","rfc3339","unixtime"],"target_format":"rfc3339","remove_on_fail":true}`,
 		`{"field":"a.b","source_formats":["2006-01-02","unixtimemilli","ansic"],"target_format":"unixtimenano"}`,
@@ -121,7 +123,9 @@ var plugins = []pluginDef{
 		`{"masks":[{"re":"\\b(\\d{1,4})\\D?(\\d{1,4})\\D?(\\d{1,4})\\D?(\\d{1,4})\\b","groups":[1,2,3]}]}`,
 		`{"masks":[{"re":"(\\d)(\\d)?","groups":[1,2],"max_count":3},{"re":"(test)","groups":[1],"process_fields":["message"],"replace_word":"***"}],"mask_applied_field":"masked","mask_applied_value":"yes","ignore_fields":["a.b"]}`,
 		`{"masks":[{"re":"a(b)?","groups":[1]},{"re":"(x+)","groups":[0],"cut_values":true}],"process_fields":["message","log","a.b"],"skip_mismatched":true}`,
-		`{"masks":[{"match_rules":[{"rules":[{"values":["secret"],"mode":"contains","case_insensitive":true}]}],"re":"(\\w+)","groups":[0],"metric_name":"m1","metric_labels":["service"]}],"applied_metric_labels":["service","level"]}`}, "C17"},
+		`{"masks":[{"match_rules":[{"rules":[{"values":["secret"],"mode":"contains","case_insensitive":true}]}],"re":"(\\w+)","groups":[0],"metric_name":"m1","metric_labels":["service"]}],"applied_metric_labels":["service","level"]}`,
+		// option interplay: a mask's own metric named like the plugin-level applied metric (registration is skipped with an error log, the config is accepted)
+		`{"masks":[{"re":"(\\d+)","groups":[1],"metric_name":"mask_applied_total"},{"re":"(secret)","groups":[1],"metric_name":"m2","metric_labels":["level"]}],"applied_metric_name":"m2"}`}, "C17"},
 	18: {"modify", []string{
 		`{"new":"value is ${a.b}."}`,
 		`{"level":"${message|re(\"(\\\\w+):.*\",-1,[1],\",\")}"}`,
